@@ -98,14 +98,3 @@ Definition views_chk (c : view_case) : bool :=
   | VWfField f wf => Bool.eqb (wf_field f) wf
   | VWfEnum e ch wf known => Bool.eqb (wf_enum e ch) wf && Bool.eqb (enum_type_known ch) known
   end.
-
-(* the same check against the repaired RequiredNumbers (select on Cardinality()); used by checks/C04.py when
-   REQUIRED_NUMBERS_REPAIRED is set, i.e. after the repair has been applied to the repository *)
-Definition views_chk_rn_repaired (c : view_case) : bool :=
-  match c with
-  | VMsgAll fields lkreq rtreq =>
-      same_set (required_numbers_repaired fields) lkreq
-      && match rtreq with Some r => same_set (rt_required_numbers fields) r | None => true end
-  | VMsg fields req => same_set (required_numbers_repaired fields) req
-  | _ => views_chk c
-  end.
